@@ -629,7 +629,7 @@ def run(info, out):
         print("crash:", crash)
         nd, no = analyse(env, cases, res, out, stats)
         print("replay: oracle anomalies %d, model/impl disagreements %d %s" % (no, nd, stats.get("diffs", "")))
-        return {"evaluations": 1, "distinct_nontrivial": 2, "rule": "replay of " + info["replay"], "samples": [p["harness_case"][:400]]}
+        return {"evaluations": 1, "distinct_nontrivial": 2, "rule": "replay of " + info["replay"], "samples": [(p.get("harness_case") or render(env, "replay", p["ops"], p.get("fault_at_allocation", 0))[0])[:400]]}
     nseq = 300 if tier == "quick" else 3000
     rng = Rng(seed)
     # 1. corpus + fault-free histories
